@@ -61,7 +61,7 @@ func symbolsOf(t *Term) map[string]bool {
 
 // weak symbols do not propagate relevance (they occur almost everywhere)
 func weakSym(n string) bool {
-	return n == "str.len" || n == "dyn" || n == "pow2" || n == "bitlen" || n == "str!empty"
+	return n == "gstr.len" || n == "dyn" || n == "pow2" || n == "bitlen" || n == "str!empty"
 }
 
 // relevantHyps selects the hypotheses transitively sharing symbols with the goal.
